@@ -388,13 +388,13 @@ def run(ck):
                '(each executed on every combination of branch outcomes and trip counts 0/1/2)')
     for c in cases[:3] + cases[len(cases) // 2:len(cases) // 2 + 3]:
         ck.sample(c)
-    bad, err = ck.coq_eval_mismatches(HEADER, 'case15', cases, 'check15_strict', chunk=1500, tag='strict')
+    bad, err = ck.coq_eval_mismatches(HEADER, 'case15', cases, 'check15_strict', chunk=400, tag='strict')
     if err:
         ck.broken.append('correspondence evaluation failed: ' + err[:500])
     ck.log(f'model evaluated {len(cases)} verdicts; {len(bad)} to classify')
     sub = [cases[j] for j in bad]
-    coded_bad, err1 = ck.coq_eval_mismatches(HEADER, 'case15', sub, 'check15_coded', chunk=1500, tag='coded')
-    fixed_bad, err2 = ck.coq_eval_mismatches(HEADER, 'case15', sub, 'check15_fixed', chunk=1500, tag='fixed')
+    coded_bad, err1 = ck.coq_eval_mismatches(HEADER, 'case15', sub, 'check15_coded', chunk=400, tag='coded')
+    fixed_bad, err2 = ck.coq_eval_mismatches(HEADER, 'case15', sub, 'check15_fixed', chunk=400, tag='fixed')
     if err1 or err2:
         ck.broken.append('correspondence evaluation failed: ' + (err1 or err2)[:500])
     coded_bad, fixed_bad = set(coded_bad), set(fixed_bad)
